@@ -61,6 +61,10 @@ func genConfig(t *rapid.T) (*string, ragen.Config, bool, string) {
 	c.Unix = ragen.CmdPatterns{Evasion: rapid.SampledFrom(evasionPool).Draw(t, "ue"), Suffix: rapid.SampledFrom(suffixPool).Draw(t, "us"), NoSpaceSuffix: rapid.SampledFrom(noSpaceSuffixPool).Draw(t, "un")}
 	c.Windows = ragen.CmdPatterns{Evasion: rapid.SampledFrom(evasionPool).Draw(t, "we"), Suffix: rapid.SampledFrom(suffixPool).Draw(t, "ws"), NoSpaceSuffix: rapid.SampledFrom(noSpaceSuffixPool).Draw(t, "wn")}
 	var sb strings.Builder
+	// keys the tool does not know are ignored, they do not invalidate the file
+	if rapid.IntRange(0, 3).Draw(t, "unknowntop") == 0 {
+		sb.WriteString(rapid.SampledFrom([]string{"version: 1\n", "comment: \"anti evasion patterns\"\n", "x-anchors:\n  - &a foo\n"}).Draw(t, "unknowntopkey"))
+	}
 	sb.WriteString("patterns:\n")
 	sec := func(name string, u, w *string) {
 		skipU := kind == "partial" && rapid.IntRange(0, 2).Draw(t, "skipu") == 0
@@ -70,6 +74,9 @@ func genConfig(t *rapid.T) (*string, ragen.Config, bool, string) {
 			return
 		}
 		sb.WriteString("  " + name + ":\n")
+		if rapid.IntRange(0, 5).Draw(t, "unknownsub") == 0 {
+			sb.WriteString("    powershell: \"[`]*\"\n")
+		}
 		if skipU {
 			*u = ""
 		} else {
@@ -99,7 +106,7 @@ func genC04(t *rapid.T) C04Case {
 	var isDir bool
 	pure := rapid.IntRange(0, 2).Draw(t, "pure") != 0
 	o := ragen.GenOpt{
-		Rx:       ragen.RxOpt{MaxDepth: 1},
+		Rx:       ragen.RxOpt{MaxDepth: 1, NoCasePairs: openFinding("D20")},
 		MaxDepth: 2, MaxItems: 5, Flags: true, Cmdline: true, CmdLiteral: true, StoreLoad: true,
 		ConfigGen: func(t *rapid.T) (*string, ragen.Config) {
 			s, c, d, k := genConfig(t)
